@@ -182,10 +182,10 @@ def obstacle_layout_case(ctx, layout, action=Action.MOVE_FORWARD, limit=20000):
     ctx.hit('obstacles.outcomes', n_out)
     ctx.add('max_outcomes_per_layout', 0)
     ctx.extra['max_outcomes_per_layout'] = max(ctx.extra.get('max_outcomes_per_layout', 0), n_out)
-    if unscripted:
-        # the function draws in a way the scripted generator cannot enumerate (a continuous draw, say): fall back to many
-        # real generators - every outcome seen is still checked, and a free neighbour that is a possible destination shows up
-        # among 400 samples with overwhelming probability
+    if unscripted or not complete:
+        # the function draws in a way the scripted generator cannot enumerate (a continuous draw, say), or in so many
+        # combinations that the enumeration was cut off: add many real generators - every outcome seen is still checked, and a
+        # free neighbour that is a possible destination shows up among 400 samples with overwhelming probability
         ctx.hit('obstacles.sampled_instead_of_enumerated')
         for seed in range(400):
             s_ = build(layout)
@@ -202,9 +202,6 @@ def obstacle_layout_case(ctx, layout, action=Action.MOVE_FORWARD, limit=20000):
                 for p in old:
                     if p in new:
                         stays[p] += 1
-    elif not complete:
-        ctx.inconc(f'move_obstacles outcome enumeration incomplete on {payload["layout"]} (limit {limit})')
-        return
     # completeness over the outcome set
     ctx.hit('obstacles.completeness')
     want = {(p[0] + dy, p[1] + dx) for p in old for dy, dx in N4} & floor0
@@ -291,7 +288,7 @@ def teleport_case(ctx, layout, agent, action):
     if partners:
         ctx.hit('teleport.with_partner')
         ctx.nontrivial(('tp', tuple(payload['layout']), y0, x0))
-        if unscripted:
+        if unscripted or not complete:
             ctx.hit('teleport.sampled_instead_of_enumerated')
             for seed in range(300):
                 ok, res = call_real(run, np.random.default_rng(seed))
@@ -301,9 +298,7 @@ def teleport_case(ctx, layout, agent, action):
                         ctx.violation('teleport', 'teleport.wrong_destination', f'{label}: agent sent to ({p_[0]},{p_[1]}) (seed {seed}), not '
                                       f'one of the partners {sorted(partners)}', 'teleport_case', payload)
                     seen.add((p_[0], p_[1]))
-        elif not complete:
-            ctx.inconc(f'teleport outcome enumeration incomplete on {label}')
-        if (unscripted or complete) and seen != partners:
+        if seen != partners:
             ctx.violation('teleport', 'teleport.partner_never_chosen',
                           f'{label}: partners {sorted(partners - seen)} are never chosen over all {n} outcomes', 'teleport_case',
                           payload)
